@@ -458,8 +458,90 @@ def rule_size_line(ctx):
     _report_obligations(ctx, R, I, "Dechunker::read_size")
 
 
+def _idx_norm(l):
+    """index leaf -> (sorted atoms, constant): i, i + 1, 1 + i ..."""
+    if l[0] == "int":
+        return ((), l[1])
+    if l[0] == "term" and l[1][0] == "arith" and l[1][1] == "Add":
+        a, b = _idx_norm(l[1][2]), _idx_norm(l[1][3])
+        if a is None or b is None:
+            return None
+        return (tuple(sorted(a[0] + b[0], key=repr)), a[1] + b[1])
+    if l[0] == "term":
+        return ((l[1],), 0)
+    return None
+
+
+def _idx_add(a, b):
+    if a is None or b is None:
+        return None
+    return (tuple(sorted(a[0] + b[0], key=repr)), a[1] + b[1])
+
+
+def _elem_of(t):
+    """element term -> (base term, normalised index) or None.  Understands the element pseudo-fields of the interpreter
+    (`x[k]`, `x[i]`), `get(i)` payloads, and sub-slices `x[s..]` / split_at halves (index shifted by their start)."""
+    import ast
+    if not isinstance(t, tuple) or not t:
+        return None
+    if t[0] == "deref":
+        inner = t[1]
+        if (isinstance(inner, tuple) and inner and inner[0] == "proj" and inner[2] == (("v", "Some"), ("f", "0"))
+                and inner[1][0] == "app" and inner[1][1] == "<impl [T]>::get" and inner[1][2][0] == "term"):
+            return _shift(inner[1][2][1], _idx_norm(inner[1][3]))
+        return _elem_of(inner) if isinstance(inner, tuple) and inner and inner[0] == "proj" else None
+    if t[0] == "proj" and len(t[2]) == 1 and t[2][0][0] == "f" and isinstance(t[2][0][1], str):
+        name = t[2][0][1]
+        if name.startswith("#") and name[1:].isdigit():
+            return _shift(t[1], ((), int(name[1:])))
+        if name.startswith("[") and name.endswith("]") and len(name) > 2:
+            try:
+                it = ast.literal_eval(name[1:-1])
+            except Exception:
+                return None
+            return _shift(t[1], _idx_norm(("term", it)))
+    return None
+
+
+def _shift(base, idx):
+    """(base, idx) with sub-slice bases unfolded to the slice they were cut from"""
+    if idx is None:
+        return None
+    while isinstance(base, tuple) and base and base[0] == "app" and base[1] == "slice" and base[2][0] == "term" and base[3][0] == "agg":
+        start = None
+        for pth, l in base[3][1]:
+            if pth == (("f", "start"),):
+                start = l
+        if start is None:
+            start = ("int", 0)
+        idx = _idx_add(idx, _idx_norm(start))
+        if idx is None:
+            return None
+        base = base[2][1]
+    return (base, idx)
+
+
+def _known_bytes(st):
+    """{(base, index): byte value} for every element the path's facts pin to one value"""
+    out = {}
+    for k, c in st.facts.items():
+        t = v = None
+        if c[0] == "iv" and len(c[1]) == 1 and c[1][0][0] == c[1][0][1]:
+            t, v = k, c[1][0][0]
+        elif k[0] == "eq" and c == ("bool", True):
+            for x, y in ((k[1], k[2]), (k[2], k[1])):
+                if x[0] == "int" and y[0] == "term":
+                    t, v = y[1], x[1]
+        if t is None:
+            continue
+        e = _elem_of(t)
+        if e is not None:
+            out[e] = v
+    return out
+
+
 def rule_crlf_finder(ctx):
-    """R07.6: find_crlf returns Some(cr) only where byte cr is CR and byte cr+1 is LF"""
+    """R07.6: find_crlf(b) returns Some(i) only on paths whose facts say b[i] == CR and b[i+1] == LF"""
     R = "R07.6"
     prog = ctx.prog
     fc = prog.find("find_crlf")
@@ -472,24 +554,25 @@ def rule_crlf_finder(ctx):
     outs = I.run(fc, [ref(SRC)], init)
     somes = [o for o in outs if o.kind == "return" and shape(o.ret).startswith("Some")]
     bad = []
+    for o in outs:
+        if o.kind not in ("return", "panic"):
+            bad.append("an abstract path of the finder ends as %s" % o.kind)
     for o in somes:
-        facts = repr(sorted(map(repr, o.state.facts.items())))
-        # the position comes from Iterator::position over the slice (closure compares with b'\\r') ...
         v = o.ret.get((("v", "Some"), ("f", "0")))
-        if "position" not in repr(v):
-            bad.append("returned index does not originate from the CR search")
-        # ... and the path compared the byte at cr+1 with b'\\n' = 10 (true edge)
-        if not any(k[0] == "eq" and ("int", 10) in k and val == ("bool", True) for k, val in o.state.facts.items()):
-            if not any(c == ("iv", ((10, 10),)) for c in o.state.facts.values()):
-                bad.append("Some(..) is returned without the following byte having been compared with LF")
-    clos = prog.closures_of(fc)
-    cr = any("'int': '13'" in repr(c.raw) for c in clos)
-    ctx.check(len(somes) >= 1 and not bad and cr, R, "finder-structure",
-              "find_crlf returns Some(i) only on a path where byte i matched CR (search closure) and byte i+1 was read with a checked get() and equals LF",
-              loc=body_loc(fc), detail=bad[:3])
-    I2 = mk_interp(prog)
-    I2.run(fc, [ref(SRC)], init)
-    _report_obligations(ctx, R, I2, "find_crlf")
+        i = _idx_norm(v) if v else None
+        if i is None:
+            bad.append("the returned index is not a value the analysis can name")
+            continue
+        known = _known_bytes(o.state)
+        b = ("in", "b")
+        if known.get((b, i)) != 13:
+            bad.append("Some(i) is returned on a path that has not established b[i] == CR")
+        if known.get((b, _idx_add(i, ((), 1)))) != 10:
+            bad.append("Some(i) is returned on a path that has not established b[i+1] == LF")
+    ctx.check(len(somes) >= 1 and not bad, R, "finder-structure",
+              "find_crlf(b) returns Some(i) only on paths that established b[i] == CR and b[i+1] == LF (element facts of the path; "
+              "%d Some-path(s))" % len(somes), loc=body_loc(fc), detail=sorted(set(bad))[:3])
+    _report_obligations(ctx, R, I, "find_crlf")
 
 
 def rule_outer_loop(ctx):
